@@ -529,7 +529,8 @@ fn i2l_doc(s: &ISpec, ikey: &mut Out, i2l: &mut Out) {
     let raws = scan_objects(&b.bytes);
     let mut ids: Vec<(u32, u16)> = b.direct.iter().map(|(n, _, _)| (*n, 0u16)).collect();
     ids.extend(b.members.iter().map(|(n, _)| (*n, 0u16)));
-    let pw = if s.open_as == 0 { &s.user } else { &s.owner };
+    // Algorithm 3 (a): without an owner password the user password takes its place
+    let pw = if s.open_as == 0 || s.owner.is_empty() { &s.user } else { &s.owner };
     let rb = c05::read_back(&b.bytes, pw, &ids, false);
     let cls = format!("m{}{}{}", s.mode, if s.encmeta { "" } else { "-nometa" }, if s.objstm { "-objstm" } else { "" });
     if let Err(e) = &rb.opened {
